@@ -1,2 +1,3 @@
 //! Reference models.  Nothing in here calls the code under test.
 pub mod bits;
+pub mod layout;
